@@ -1,25 +1,25 @@
-\* exhaustive, repaired flags: the writer design satisfies the C08 contract (1 database, 1 collection, 1 partition; restarts, faults, in-flight drops)
+\* negative control: create < drop < t (both recorded) answered "created" instead of probing - with operations that overtake the re-creation or follow a rejected re-creation TLC must report a Contract violation (NoBlindApply)
 SPECIFICATION Spec
 CHECK_DEADLOCK FALSE
 VIEW view
 INVARIANTS TypeOK TablesAgree Contract
 CONSTANTS
-  MaxT = 5
-  MaxOps = 5
+  MaxT = 6
+  MaxOps = 6
   MaxAhead = 2
-  DBs = {"d1"}
+  DBs = {}
   Colls = {"c1"}
   Parts = {"p1"}
-  UseDefault = FALSE
+  UseDefault = TRUE
   Kinds = {"alterDatabase", "createIndex", "alterIndex", "loadPartitions"}
   WithFail = TRUE
   WithInflight = TRUE
   WithSwap = TRUE
   WithOvertake = TRUE
-  WithRestart = TRUE
+  WithRestart = FALSE
   AlterDbChecked = TRUE
   AlterIdxRecheck = TRUE
   DropGuarded = TRUE
   CreateFromDrop = TRUE
-  ProbeAfterDrop = TRUE
+  ProbeAfterDrop = FALSE
   TabT = {0, 1, 2, 3}
